@@ -54,3 +54,18 @@ package types
 //@   panics any
 //@ loop 1
 //@   invariant old(lo) <= lo && hi <= old(hi) && (old(lo) < old(hi) ==> lo < hi) && (old(lo) >= old(hi) ==> (lo == old(lo) && hi == old(hi)))
+
+// key.go — every key prefix is a one-byte slice with capacity 1 (package initialisers `[]byte{prefix}`), so `append(prefix, ...)`
+// always allocates and never writes into the shared backing array. Trusted (initialiser bodies are not verified).
+//@ axiom evm_key_prefixes: len(KeyPrefixBlockHash) == 1 && cap(KeyPrefixBlockHash) == 1 && len(KeyPrefixTransientTxReceipt) == 1 && cap(KeyPrefixTransientTxReceipt) == 1 && len(KeyPrefixTransientTxGas) == 1 && cap(KeyPrefixTransientTxGas) == 1 && len(KeyPrefixTransientTxLogCount) == 1 && cap(KeyPrefixTransientTxLogCount) == 1
+
+//@ ghost func trReceiptKeyB(i int) bytes
+//@ func TxReceiptTransientKey(txIdx uint64) []byte
+//@   assumed
+//@   modifies nothing
+//@   ensures len(result) == 9 && bytes(result) == trReceiptKeyB(txIdx) && fresh(base(result))
+//@   panics never
+//@ func BlockHashKey(height uint64) []byte
+//@   modifies nothing
+//@   ensures[C20.block_hash_key] len(result) == 9
+//@   panics[C20.block_hash_key_never_panics] never
